@@ -15,6 +15,7 @@ import (
 	"os"
 	"path/filepath"
 	"runtime/debug"
+	"runtime/pprof"
 	"sort"
 	"strconv"
 	"strings"
@@ -34,6 +35,15 @@ func register(id, level string, assumptions []string, rules ...func(w *World, r 
 	props[id] = &propDef{ID: id, Level: level, Rules: rules, Assumptions: assumptions}
 }
 
+// addRules appends rules to an already registered property (used by the files holding later rounds of rules).
+func addRules(id string, rules ...func(w *World, r *Report)) {
+	pd, ok := props[id]
+	if !ok {
+		panic("addRules: unknown property " + id)
+	}
+	pd.Rules = append(pd.Rules, rules...)
+}
+
 func main() {
 	repo := flag.String("repo", "/repo", "repository root (current working tree is analysed)")
 	verif := flag.String("verif", "/verif", "verification directory (evidence, known findings)")
@@ -45,6 +55,12 @@ func main() {
 	mutants := flag.String("mutants", "", "run the sensitivity corpus from this directory for the property (thorough tier does this automatically)")
 	dumpFuncs := flag.Bool("dump-funcs", false, "maintenance: print the reference table of named functions (name, signature) of the tree")
 	flag.Parse()
+	if pf := os.Getenv("GOCHK_CPUPROFILE"); pf != "" {
+		if f, err := os.Create(pf); err == nil {
+			_ = pprof.StartCPUProfile(f)
+			defer pprof.StopCPUProfile()
+		}
+	}
 
 	if *dumpFuncs {
 		w, err := loadWorldRaw(*repo, nil, nil)
@@ -234,6 +250,7 @@ func main() {
 			}
 		}
 	}
+	pprof.StopCPUProfile()
 	os.Exit(exit)
 }
 
